@@ -227,7 +227,7 @@ PROPERTY = {
             strategy=strat_model,
             nontrivial=lambda L: "shrink-after-compression-row>=2" in L,
             quick=1200,
-            thorough=30000,
+            thorough=90000,
             shards_quick=16,
         ),
         SubCheck(
@@ -236,7 +236,7 @@ PROPERTY = {
             strategy=strat_accuracy,
             nontrivial=lambda L: "shrink" in L and "non-default-params" in L,
             quick=400,
-            thorough=8000,
+            thorough=24000,
             shards_quick=4,
         ),
     ],
